@@ -1,7 +1,7 @@
 (* C14 - Issuing is total, side-effect free and repeatable. *)
 From Coq Require Import List String Ascii Bool Arith ZArith.
 Import ListNotations.
-Require Import SDJ.Json SDJ.Wire SDJ.Model2 SDJ.Out SDJ.Split SDJ.Issuer2 SDJ.C14Proofs.
+Require Import SDJ.Json SDJ.Wire SDJ.Model2 SDJ.Out SDJ.Split SDJ.Issuer1 SDJ.Issuer2 SDJ.C14Proofs.
 Local Open Scope string_scope.
 
 Theorem C14_encode_never_panics :
